@@ -74,6 +74,10 @@ def cases(tier, seed):
                    'family': '1d' if i % 2 else '2d', 'etype': ['linear', 'conv'][(i // 2) % 2],
                    'mask_mode': ['binary', 'allpruned'][i % 2], 'fold': False,
                    'seed': seed * 37 + i})
+    # a layer invoked twice in two different width-sharing groups; pad modules per call site / shared
+    for i, c in enumerate(pitgen.special_cases(48 if tier == 'quick' else 960, seed, {'kind': 'random'})):
+        cs.append(dict(c, mask_mode=['binary', 'mixed', 'adversarial', 'allpruned', 'normal'][i % 5],
+                       fold=(i // 2) % 3 == 0))
     for i in range(60 if tier == 'quick' else 900):
         cs.append({'kind': 'mps', 'prog_seed': seed * 1000003 + 850000 + i, 'family': '2d',
                    'w_prec': [(0, 2, 4, 8), (0, 4), (8, 0, 2), (0, 8)][i % 4], 'mask_mode': 'coeffs',
@@ -156,6 +160,8 @@ def make_probe():
 def build_case_program(case):
     rng = random.Random(case.get('prog_seed', case['seed']))
     k = case['kind']
+    if case.get('special'):
+        return pitgen.special_program(rng, case['family'], case['special'], case.get('delay', 0))
     if k == 'origins':
         return pitgen.cat_origin_program(rng, case['family'], case['kinds'], case['consumer'])
     if k == 'manual':
